@@ -59,7 +59,7 @@ def _chain(xs):
 
 @st.composite
 def top_tree(draw):
-    kind = draw(st.sampled_from(['arith', 'arith', 'cmp', 'amp', 'ampcmp', 'callcmp', 'cmpcmp', 'blankcmp', 'texterr', 'emptytext']))
+    kind = draw(st.sampled_from(['arith', 'arith', 'cmp', 'amp', 'ampcmp', 'callcmp', 'cmpcmp', 'cmpchain', 'blankcmp', 'texterr', 'emptytext', 'huge']))
     if kind == 'arith':
         t = draw(arith_tree)
         if draw(st.booleans()):
@@ -99,6 +99,21 @@ def top_tree(draw):
         t = ['bin', op, draw(int_leaf), e]
         if draw(st.booleans()):
             t = ['bin', draw(st.sampled_from(gf.ARITH)), draw(int_leaf), t] if draw(st.booleans()) else ['bin', draw(st.sampled_from(gf.ARITH)), t, draw(int_leaf)]
+    elif kind == 'huge':
+        # integers beyond the double range are exact integers; where one meets a decimal, or a quotient does not fit, the tree has no value (and no zero divisor)
+        big = ['num', draw(st.sampled_from(['1' + '0' * 400, '7' * 401, '9' * 402]))]
+        other = draw(st.one_of(int_leaf, st.sampled_from([['dec', '0.5'], ['dec', '1.5'], ['num', '3'], ['num', '1'], big])))
+        op = draw(st.sampled_from(gf.ARITH))
+        t = ['bin', op, big, other] if draw(st.booleans()) else ['bin', op, other, big]
+        if draw(st.booleans()):
+            t = ['bin', draw(st.sampled_from(gf.ARITH)), t, draw(st.sampled_from([['dec', '0.5'], ['num', '2'], big]))]
+    elif kind == 'cmpchain':
+        # a chain of comparisons of one rank, written without parentheses: it reads from the left
+        small = st.sampled_from([['num', '0'], ['num', '1'], ['num', '2'], ['dec', '1.0'], ['var', 'v_one'], ['var', 'v_zero'], ['cell', 'B2']])
+        row = draw(st.sampled_from([['='], ['<=', '>=', '<>'], ['<', '>']]))
+        t = ['bin', draw(st.sampled_from(row)), draw(small), draw(small)]
+        for _ in range(draw(st.integers(1, 3))):
+            t = ['bin', draw(st.sampled_from(row)), t, draw(small)]
     elif kind == 'cmpcmp':
         # a parenthesised comparison (a logical) compared with a small number, next to the same comparison between the numbers themselves
         small = st.sampled_from([['num', '0'], ['num', '1'], ['num', '2'], ['dec', '1.0'], ['dec', '0.0'], ['var', 'v_one'], ['var', 'v_zero']])
@@ -141,7 +156,7 @@ def regroupings(t):
             op, l, r = n[1], n[2], n[3]
             p = gf.prec(n)
             if op != '&':
-                if l[0] == 'bin' and l[1] != '&' and not (gf.prec(l) < p or (p == 1 and gf.prec(l) == 1)):
+                if l[0] == 'bin' and l[1] != '&' and not (gf.prec(l) < p or (p == 1 and gf.prec(l) == 1 and gf.CMP_ROW[l[1]] != gf.CMP_ROW[op])):
                     out.append(put(['bin', l[1], l[2], ['bin', op, l[3], r]]))
                 if r[0] == 'bin' and r[1] != '&' and not (gf.prec(r) <= p):
                     out.append(put(['bin', r[1], ['bin', op, l, r[2]], r[3]]))
@@ -191,7 +206,7 @@ def check(case):
     except Unspecified:
         raise Skip('reference-unspecified')
     except OverflowError:
-        raise Skip('overflow')
+        return check_overflow(case)
     if has_cmp_or_amp(t):
         # an error operand of a comparison or of & is C08's subject (an & or a comparison inside an operand that ends in an error is not)
         for n in gf.walk(t):
@@ -214,6 +229,33 @@ def check(case):
         g = r['result']
         if r['error'] is not None or not same(g, want):
             raise Violation('%s rendering %s -> %r, tree value is %r' % (name, text, r['error'] or g, want), r['error'] or enc(g), enc(want))
+
+
+def check_overflow(case):
+    """A step of the tree does not fit a double (a 401-digit integer meeting a decimal, a quotient beyond 1.8e308): the tree has no value.  Whatever the
+    renderings give, they give the same, and they do not blame a zero divisor when the tree has none."""
+    t = case['tree']
+    for n in gf.walk(t):
+        if n[0] == 'bin' and n[1] == '/':
+            try:
+                d = gf.ref_eval(n[3], env_ref())
+            except Exception:
+                raise Skip('overflow')
+            if isinstance(d, Err) or d == 0:
+                raise Skip('overflow')
+    if has_cmp_or_amp(t):
+        raise Skip('overflow')
+    env = Env(vars=VARS, cells=CELLS, funcs={'ID': lambda x: x})
+    env.P.set_function('EV', lambda text: env.P.parse(text)['result'])
+    texts = [('minimal', gf.render(t, 'min')), ('full', gf.render(t, 'full')), ('redundant', gf.render(gf.add_redundant(t, case['picks']), 'min'))]
+    outs = []
+    for name, text in texts:
+        r = env.parse(text)
+        if r['error'] == '#DIV/0!':
+            raise Violation('%s rendering %s... -> #DIV/0!, but no divisor in the tree is zero (a step of the tree overflows the double range)' % (name, text[:60]), '#DIV/0!', 'not #DIV/0!')
+        outs.append((r['error'], type(r['result']).__name__))
+    if len(set(outs)) != 1:
+        raise Violation('the renderings of a tree with an overflowing step disagree: %r' % (list(zip([n for n, _ in texts], outs)),), repr(outs), None)
 
 
 def structure(t):
